@@ -56,6 +56,12 @@ CHECKS.update({
    note="verify_all_tables takes the preprocessed commitment from the proof; binding to a circuit is the caller's comparison (not claimed).", ref="DESIGN.md §3 C16", engine="E2+E3"),
 })
 
+CHECKS.update({
+ "C19": dict(cat="exploration", tech="differential property testing (proptest) across build profiles: the same (program, input plan) cases run in the release binary and in the debug-assertion binary",
+   text="Random programs rich in hint / recompose-NPO consumers and connect-shared slots x input plans (provide once, skip, too short, too long, set twice equal/conflicting) are executed by the release-profile runner and by the debug-assertion-profile runner (child process). Verdict classes must agree, success requires consistently provided inputs (or inputs the circuit itself determines) and the reference values, no panic/abort in either profile. 150k cases per quick run.",
+   note="UB is observed through behaviour, not proven absent. Builder-stage failures (e.g. debug-only assertions in connect) are outside the runner property and discarded (counted).", ref="DESIGN.md §3 C19", engine="E1"),
+})
+
 NOT_YET = {}
 
 def main():
@@ -81,7 +87,7 @@ def main():
           for p in props if p["id"] not in CHECKS]
     m = {
         "version": 1,
-        "setup_cmd": "cd /verif/harness && cp -f /repo/Cargo.lock Cargo.lock && CARGO_NET_OFFLINE=true cargo build --release --features hooks",
+        "setup_cmd": "cd /verif/harness && cp -f /repo/Cargo.lock Cargo.lock && CARGO_NET_OFFLINE=true cargo build --release --features hooks && CARGO_NET_OFFLINE=true cargo build --profile dbg --features hooks",
         "hooks": {
             "guard": "cargo feature `verif-hooks` (off by default) on the repo crates",
             "enable": "the harness crate's `hooks` feature forwards to `verif-hooks`; ./check always builds with --features hooks",
